@@ -686,13 +686,28 @@ func TestDriverPubsub(t *testing.T) {
 			"(AddTopic/RemoveTopic/Subscribe/unsubscribe/send on source/close source/readers on and off/Topics) or on the real EventSystem "+
 			"(SubscribeNewHeads/Logs/PendingTxs, Subscription.Unsubscribe, bus unsubscribe, events through a real WSClient, readers) "+
 			"with the per-op snapshots; plus one replay case; non-trivial = a message was delivered or a channel was closed in the history")
-	cases := NewCases(dir, "From Evm Require Import Conc PubSub FilterSys Total CorrPubSub.", "ps_mismatches")
+	cases := NewCases(dir, "From Evm Require Import Conc PubSub FilterSys FilterApi Total CorrPubSub.", "ps_mismatches")
 
 	idx := 0
 	for i := 0; i < n; i++ {
 		r := rng.Fork(uint64(i))
 		nops := 10 + r.Intn(31)
-		if i%3 != 2 {
+		if i%4 == 3 {
+			term, h, nt := runApiHistory(t, r, side, nops)
+			if watchdogHit != "" {
+				sig := "C20/pubsub/not-quiescent"
+				if strings.Contains(watchdogHit, "filter consumer busy") {
+					sig = "C20/pubsub/api/filter-consumer-never-parks"
+				}
+				side.Hit(sig, "goroutines of the filter API did not return to their loop heads within 30 s: "+watchdogHit, h)
+				break
+			}
+			if term == "" {
+				continue
+			}
+			cases.Add(term)
+			side.Case(idx, "api:"+fmt.Sprint(h.Cap)+":"+strings.Join(h.Ops, ";"), nt, h)
+		} else if i%4 != 2 {
 			term, h, nt := runBusHistory(t, r, side, nops)
 			if term == "" {
 				continue
@@ -762,6 +777,17 @@ func TestDriverPubsub(t *testing.T) {
 		side.Case(idx, "pending:"+k.name, true, pc)
 		idx++
 	}
+
+	// concurrent JSON-RPC filter calls on the real PublicFilterAPI, in a child process (api_test.go)
+	ms := 3000
+	if os.Getenv("VERIF_TIER") == "thorough" {
+		ms = 45000
+	}
+	ms = EnvInt("VERIF_APISTRESS_MS", ms)
+	survived := apiStress(t, side, ms)
+	cases.Add(fmt.Sprintf("(PApiStress %s)", CqBool(survived)))
+	side.Case(idx, "api-stress", true, map[string]interface{}{"survived": survived, "ms": ms})
+	idx++
 
 	if os.Getenv("VERIF_TIER") == "thorough" {
 		stress(t, side)
